@@ -217,7 +217,7 @@ func c03(p *an.Prog, r *an.R, tier string) {
 					}
 					r.Check(ok, "C03.R3", fname+"/ChunkMatch/content-starts-at-ContentStart", cl.Pos(), "Content, ContentStart.LineNumber and ContentStart.ByteOffset are built from the same first line", "the chunk content does not start at the line and byte offset reported in its ContentStart")
 				}
-			case isType(cl, "Location") && fn.Name() == "fillContentChunkMatches":
+			case isType(cl, "Location"):
 				col := litField(cl, "Column")
 				get := isCallNamed(col, "get")
 				if get == nil {
